@@ -111,6 +111,12 @@ func (c20) build(c *mon.Ctx) c20Case {
 	}
 	cs.Files[cs.Script] = strings.ReplaceAll(body.String(), "\"lib.p\"", "\""+libName+"\"")
 	cs.Files[libName] = "add_key(from_lib, \"lib\")\nset_tag(libtag, \"1\")\n"
+	if r.Intn(2) == 0 {
+		// a use() chain: the selected script reaches deep.p only through the library
+		cs.Files[libName] += "use(\"deep.p\")\n"
+		cs.Files["deep.p"] = "add_key(from_deep, 2)\nuse(\"deeper.ppl\")\n"
+		cs.Files["deeper.ppl"] = "set_tag(deepest, \"yes\")\n"
+	}
 	if r.Intn(3) == 0 {
 		cs.Files["other.ppl"] = "add_key(other, 1)\n"
 	}
